@@ -339,6 +339,16 @@ func parsePossibilityNumber(input *input, version *VersionRelation) error {
 			return errors.New("Oh no. Reached EOF before Number finished")
 		case ')':
 			return nil
+		case ' ', '\t', '\n', '\r':
+			/* whitespace ends the number; only the closing paren may follow */
+			eatWhitespace(input)
+			switch input.Peek() {
+			case ')':
+				return nil
+			case 0:
+				return errors.New("Oh no. Reached EOF before Number finished")
+			}
+			return errors.New("Whitespace inside a Version number")
 		}
 		version.Number += string(input.Next())
 	}
